@@ -2,6 +2,8 @@
 use crate::common::Prop;
 
 pub mod c06;
+pub mod c10;
+pub mod c11;
 pub mod c12;
 pub mod c13;
 pub mod c14;
@@ -11,7 +13,7 @@ pub mod c18;
 pub mod engine;
 
 pub fn ids() -> Vec<&'static str> {
-    vec!["C01", "C02", "C03", "C04", "C05", "C06", "C07", "C08", "C09", "C12", "C13", "C14", "C15", "C16", "C17", "C18"]
+    vec!["C01", "C02", "C03", "C04", "C05", "C06", "C07", "C08", "C09", "C10", "C11", "C12", "C13", "C14", "C15", "C16", "C17", "C18"]
 }
 
 pub fn get(id: &str) -> Option<Box<dyn Prop>> {
@@ -25,6 +27,8 @@ pub fn get(id: &str) -> Option<Box<dyn Prop>> {
         "C07" => Box::new(engine::c07()),
         "C08" => Box::new(engine::c08()),
         "C09" => Box::new(engine::c09()),
+        "C10" => Box::new(c10::C10),
+        "C11" => Box::new(c11::c11()),
         "C12" => Box::new(c12::c12()),
         "C13" => Box::new(c13::C13),
         "C14" => Box::new(c14::C14),
